@@ -10,42 +10,54 @@
 (* operator from state to state with its guard:                               *)
 (*   cst    client -> "idle" | "wait" | "done"                                *)
 (*   net    client -> number of copies of its request in the network          *)
+(*   size   client -> number of octets of its request (set when it sends)     *)
 (*   pool   set of free buffers                                               *)
-(*   buf    buffer -> the request octets it holds (a client id, 0 = nothing)  *)
+(*   blen   buffer -> how many octets a read into it can take: the length of  *)
+(*          the slice that was put into the pool (Cap unless KeepLen)         *)
+(*   buf    buffer -> the request octets it holds: [who, n] = the first n     *)
+(*          octets of client who's request (who = 0: nothing)                 *)
 (*   tasks  sequence of server tasks [from, b, stage, req]:                   *)
 (*            from  the source address of the datagram (= the client)         *)
 (*            b     the buffer it was received into                           *)
 (*            stage "recv" -> "decoded" -> "released" -> "handled" -> "done"  *)
 (*                  (Swapped: "recv" -> "freed" -> "released": the buffer     *)
 (*                  goes back to the pool before it has been decoded)         *)
-(*            req   the decoded request (0 before decoding)                   *)
+(*            req   the decoded request [who, n] (who = 0 before decoding)     *)
 (*   rnet   set of replies in the network [to, body]                          *)
 (*   got    client -> the reply it received (0 = none)                        *)
 (*   saw    sequence of [from, req]: what each handler invocation saw         *)
-(* A request is identified with its client (distinct names, IDs, payloads);   *)
-(* ReplyFor is injective.                                                     *)
+(* A request is identified with its client (distinct names, IDs, payloads)    *)
+(* and how much of it there is; requests differ in size; ReplyFor is          *)
+(* injective.                                                                 *)
 EXTENDS Integers, Sequences, FiniteSets
 
 CONSTANTS Clients,      \* e.g. 1..3
           Buffers,      \* e.g. 1..2
-          Swapped       \* FALSE: decode, then release (as server.go does); TRUE: release, then decode
+          Cap,          \* size of a receive buffer (Server.UDPSize); no request is larger
+          Swapped,      \* FALSE: decode, then release (as server.go does); TRUE: release, then decode
+          KeepLen       \* FALSE: the whole buffer goes back to the pool; TRUE: the slice cut to the last datagram's length
 
-ReplyFor(req) == 100 + req
+Nothing == [who |-> 0, n |-> 0]
+Whole(x, c) == [who |-> c, n |-> x.size[c]]          \* the request of client c, all of it
+ReplyFor(req) == <<100 + req.who, req.n>>
 
-XInit == [cst |-> [c \in Clients |-> "idle"], net |-> [c \in Clients |-> 0], pool |-> Buffers,
-          buf |-> [b \in Buffers |-> 0], tasks |-> <<>>, rnet |-> {}, got |-> [c \in Clients |-> 0], saw |-> <<>>]
+XInit == [cst |-> [c \in Clients |-> "idle"], net |-> [c \in Clients |-> 0], size |-> [c \in Clients |-> 0],
+          pool |-> Buffers, blen |-> [b \in Buffers |-> Cap],
+          buf |-> [b \in Buffers |-> Nothing], tasks |-> <<>>, rnet |-> {}, got |-> [c \in Clients |-> <<>>], saw |-> <<>>]
 
 CanSend(x, c) == x.cst[c] = "idle"
-Send(x, c)    == [x EXCEPT !.cst[c] = "wait", !.net[c] = @ + 1]
+Send(x, c, n) == [x EXCEPT !.cst[c] = "wait", !.net[c] = @ + 1, !.size[c] = n]
 
 \* a client that has not been answered sends again (datagram transports: the request or the reply was lost)
 CanResend(x, c) == x.cst[c] = "wait"
 Resend(x, c)    == [x EXCEPT !.net[c] = @ + 1]
 
+\* a read takes as many octets as the slice it is given has room for
+Taken(x, b, c) == IF x.size[c] < x.blen[b] THEN x.size[c] ELSE x.blen[b]
 CanRecv(x, b, c) == b \in x.pool /\ x.net[c] > 0
 Recv(x, b, c) ==
-  [x EXCEPT !.pool = @ \ {b}, !.buf[b] = c, !.net[c] = @ - 1,
-            !.tasks = Append(@, [from |-> c, b |-> b, stage |-> "recv", req |-> 0])]
+  [x EXCEPT !.pool = @ \ {b}, !.buf[b] = [who |-> c, n |-> Taken(x, b, c)], !.net[c] = @ - 1,
+            !.tasks = Append(@, [from |-> c, b |-> b, stage |-> "recv", req |-> Nothing])]
 
 StageIs(x, t, st) == t \in 1..Len(x.tasks) /\ x.tasks[t].stage = st
 
@@ -57,6 +69,7 @@ Decode(x, t) ==
 CanRelease(x, t) == StageIs(x, t, IF Swapped THEN "recv" ELSE "decoded")
 Release(x, t) ==
   [x EXCEPT !.pool = @ \cup {x.tasks[t].b},
+            !.blen[x.tasks[t].b] = IF KeepLen THEN x.buf[x.tasks[t].b].n ELSE Cap,
             !.tasks[t].stage = IF Swapped THEN "freed" ELSE "released"]
 
 CanHandle(x, t) == StageIs(x, t, "released")
@@ -72,8 +85,8 @@ ClientRecv(x, c, r) == [x EXCEPT !.got[c] = r.body, !.cst[c] = "done"]
 
 -----------------------------------------------------------------------------
 \* each handler sees exactly the request its client sent; each client gets exactly the reply its handler wrote
-HandlerSeesOwn(x) == \A i \in 1..Len(x.saw) : x.saw[i].req = x.saw[i].from
-ClientGetsOwn(x)  == \A c \in Clients : x.cst[c] = "done" => x.got[c] = ReplyFor(c)
+HandlerSeesOwn(x) == \A i \in 1..Len(x.saw) : x.saw[i].req = Whole(x, x.saw[i].from)       \* every octet of it
+ClientGetsOwn(x)  == \A c \in Clients : x.cst[c] = "done" => x.got[c] = ReplyFor(Whole(x, c))
 NoMixing(x) == HandlerSeesOwn(x) /\ ClientGetsOwn(x)
 
 \* a buffer is never in the pool while a task still has to read it (what makes NoMixing hold)
